@@ -336,8 +336,8 @@ def order_cases(draw, tier):
 
 def order_pred(c):
     with crash_is_violation("C12:build", "building PoloidalAdvection"):
-        s1, s2, b1, b2, theta, rpts, consts, advE, phis, interp, sref = build(c, True, True, 1e-13)
-        advI = build(c, False, True, 1e-13)[7]
+        s1, s2, b1, b2, theta, rpts, consts, advE, phis, interp, sref = build(c, True, True, 1e-12)
+        advI = build(c, False, True, 1e-12)[7]
     f0, phi = fields(c, theta, rpts)
     interp.compute_interpolant(phi.copy(), phis)
     J = jac_norm(sref, phis.coeffs, theta, rpts, c["B0"])
